@@ -2,4 +2,4 @@ import ElkVerif.AuditLib
 import ElkVerif.Props.C02
 #audit_obligations C02 [narrow_tables_sound_partial, narrow_tables_sound_fixed, not_notNil_witness, or_nil_witness,
   and_notNil_row_witness, nilco_or_witness, check_annotations_sound, if_branches_sound, condition_type_sound,
-  negate_negate, toNilable_idem]
+  negate_negate, toNilable_idem, preservation_programs]
